@@ -1518,8 +1518,8 @@ class LuaFormatterWriter(LuaASTEchoWriter):
 
         # Normalize space characters.
         spaces = re.sub(br'\t', b' ', spaces)
+        # (As the lexer reads them: CR LF is one line end; LF CR are two.)
         spaces = re.sub(br'\r\n', b'\n', spaces)
-        spaces = re.sub(br'\n\r', b'\n', spaces)
         spaces = re.sub(br'\r', b'\n', spaces)
 
         # Delete trailing whitespace.
